@@ -31,7 +31,8 @@ def run_property(prop, tier, seed, level, deductive=(), bounded=(), enumerations
         if not sel:
             rep.undecided.append((f"{modname}/{pattern}", "no obligation selected (vacuity guard)"))
             continue
-        results = solve.discharge(sel, timeout_ms=timeout_ms if tier == "quick" else 3 * timeout_ms)
+        # thorough: three times the solver budget and every verdict of z3 re-asked of cvc5 (a disagreement is "undecided")
+        results = solve.discharge(sel, timeout_ms=timeout_ms if tier == "quick" else 3 * timeout_ms, cross_check=(tier == "thorough"))
         rep.add_deductive(results, (lambda r: replay(rep, r)) if replay else None)
     for en in enumerations:
         name, items, failures, note = en(rep)
@@ -41,6 +42,8 @@ def run_property(prop, tier, seed, level, deductive=(), bounded=(), enumerations
     rep.trusted += list(trusted)
     rep.assumptions += list(assumptions)
     rep.extra["explanation"] = explanation
+    if tier == "thorough":
+        rep.run_canaries(sorted({m for (m, _p) in deductive}))
     return rep.finish(min_obligations=min_obligations)
 
 
